@@ -354,7 +354,32 @@ def corner_touch():
     return Mesh("cornertouch", pts, faces, False)
 
 
+def union(name, parts):
+    pts, faces = [], []
+    for m in parts:
+        off = len(pts)
+        pts += m.points
+        faces += [tuple(i + off for i in f) for f in m.faces]
+    return Mesh(name, pts, faces, False)
+
+
+def sizes38():
+    """one face of every size 3..8 (disjoint), in non-monotone size order."""
+    order = [5, 3, 8, 4, 7, 6]
+    parts = [single(n).transform(rot_axis((0, 0, 1), 40.0 * i) @ rot_axis((0, 1, 0), 6.0 * i)) for i, n in enumerate(order)]
+    return union("sizes38", parts)
+
+
 _CACHE = {}
+_EXTRA = {}
+
+
+def extra():
+    """meshes used by later checks only (not part of the C02/C03 catalogue)."""
+    if not _EXTRA:
+        for m in [sizes38(), cubesphere(3), single(4), single(6), single(8)]:
+            _EXTRA[m.name] = m
+    return _EXTRA
 
 
 def catalog():
@@ -373,7 +398,8 @@ def catalog():
 
 
 def get(name):
-    return catalog()[name]
+    c = catalog()
+    return c[name] if name in c else extra()[name]
 
 
 # --------------------------------------------------------------------------
